@@ -442,3 +442,276 @@ func c17IndexNilOnError(ctx *core.Ctx, r *core.Report) {
 	}
 	r.Floor("cache-dropped-on-mutation(buildKeys error returns)", n, 1)
 }
+
+// c09TeeReachesBothSides: nodeutil.Tee mirrors every request to both of its nodes.
+// The call on the second node is skipped only when the first one failed — not when
+// it returned no node (a delete returns none by contract: the mirror would keep the
+// containers and lists of the case that is being left).
+func c09TeeReachesBothSides(ctx *core.Ctx, r *core.Report) {
+	tee := ctx.Named("nodeutil", "Tee")
+	nodeI := ctx.Named("node", "Node")
+	if tee == nil || nodeI == nil {
+		r.Fatalf("anchors nodeutil.Tee / node.Node not found")
+		return
+	}
+	n := 0
+	for _, f := range scopeFuncs(ctx, "nodeutil", "tee.go") {
+		rv := f.Signature.Recv()
+		if rv == nil || core.NamedOf(rv.Type()) != tee || (f.Name() != "Child" && f.Name() != "Next") {
+			continue
+		}
+		var calls []ssa.CallInstruction
+		for _, c := range core.CallSites(f) {
+			if m := core.IfaceMethod(c); m != nil && m.Name() == f.Name() {
+				calls = append(calls, c)
+			}
+		}
+		if len(calls) != 2 {
+			continue
+		}
+		n++
+		// conditions between the first and the second call: only tests of the error
+		second := calls[1]
+		if instrDominates(calls[1].(ssa.Instruction), calls[0].(ssa.Instruction)) {
+			second = calls[0]
+		}
+		ok := true
+		for _, pc := range core.PathConds(second.Block()) {
+			bo, isBo := pc.V.(*ssa.BinOp)
+			if !isBo {
+				continue
+			}
+			other := bo.X
+			if core.IsNilConst(bo.X) {
+				other = bo.Y
+			}
+			if !core.IsErrorType(other.Type()) {
+				ok = false
+			}
+		}
+		r.Ob("tee-reaches-both-sides", core.FnName(f), ctx.Pos(second.Pos()), ok,
+			"the request is passed to the second node only if the first returned a node: a delete (which returns none) stops at the first side and the mirror keeps what was deleted — the mirror then holds two cases of a choice")
+	}
+	r.Floor("tee-reaches-both-sides", n, 2)
+}
+
+// c09MapDeleteBeforeDescend: Reflect.childMap's Child callback handles a delete
+// request before it decides what kind of child to hand out: tested after the list
+// branch, the delete of a whole list returns the list node and removes nothing.
+func c09MapDeleteBeforeDescend(ctx *core.Ctx, r *core.Report) {
+	f := ctx.Method("nodeutil", "Reflect", "childMap")
+	if f == nil {
+		r.Fatalf("anchor nodeutil.Reflect.childMap not found")
+		return
+	}
+	n := 0
+	for _, clo := range withClosures(f)[1:] {
+		if clo.Signature.Params().Len() != 1 || !strings.HasSuffix(core.TypeName(clo.Signature.Params().At(0).Type()), "ChildRequest") {
+			continue
+		}
+		// every call that builds a list or child node is on the side where Delete is false
+		for _, c := range core.CallSites(clo) {
+			cal := core.StaticCallee(c)
+			if cal == nil || (cal.Name() != "list" && cal.Name() != "child") {
+				continue
+			}
+			n++
+			// on every way to this call r.Delete was tested and found false, or r.New true:
+			// from the entry, avoiding the false side of the Delete tests and the true side of
+			// the New tests, the call must be out of reach
+			var delFalse, newTrue []*ssa.BasicBlock
+			core.Instrs(clo, func(b *ssa.BasicBlock, in ssa.Instruction) {
+				ifi, isIf := in.(*ssa.If)
+				if !isIf {
+					return
+				}
+				switch {
+				case strings.HasSuffix(paramFieldChain(ifi.Cond), ".Delete"):
+					delFalse = append(delFalse, b.Succs[1])
+				case strings.HasSuffix(paramFieldChain(ifi.Cond), ".New"):
+					newTrue = append(newTrue, b.Succs[0])
+				}
+			})
+			blocked := map[*ssa.BasicBlock]bool{}
+			for _, x := range append(delFalse, newTrue...) {
+				if len(x.Preds) == 1 {
+					blocked[x] = true
+				}
+			}
+			seen := map[*ssa.BasicBlock]bool{}
+			reach := false
+			var walk func(b *ssa.BasicBlock)
+			walk = func(b *ssa.BasicBlock) {
+				if seen[b] || blocked[b] || reach {
+					return
+				}
+				seen[b] = true
+				if b == c.Block() {
+					reach = true
+					return
+				}
+				for _, s2 := range b.Succs {
+					walk(s2)
+				}
+			}
+			walk(clo.Blocks[0])
+			ok := !reach && len(delFalse) > 0
+			r.Ob("map-delete-before-descend", fmt.Sprintf("%s/%s#%d", core.FnName(clo), cal.Name(), n), ctx.Pos(c.Pos()), ok,
+				"the map-backed node hands out a child or list node without having tested the request for Delete first: deleting a whole list returns the list and removes nothing, so the old case keeps its list and Choose keeps answering with it")
+		}
+	}
+	r.Floor("map-delete-before-descend", n, 2)
+}
+
+// c15DeferredErrorIsTheResult: the deferred function of editor.enter and
+// Selection.Delete stores the endEdit failure into the function's result — a
+// named result, captured: with an ordinary local the store is dead and a failure of
+// the node's EndEdit (the JSON writer's final Flush) is lost.
+func c15DeferredErrorIsTheResult(ctx *core.Ctx, r *core.Report) {
+	end := ctx.Method("node", "Selection", "endEdit")
+	if end == nil {
+		r.Fatalf("anchor node.Selection.endEdit not found")
+		return
+	}
+	n := 0
+	for _, spec := range []string{"node.editor.enter", "node.Selection.Delete"} {
+		f := ctx.Lookup(spec)
+		if f == nil {
+			r.Fatalf("anchor %s not found", spec)
+			continue
+		}
+		for _, clo := range f.AnonFuncs {
+			if len(callsStatic(clo, end, false)) == 0 {
+				continue
+			}
+			n++
+			ok := false
+			core.Instrs(clo, func(_ *ssa.BasicBlock, in ssa.Instruction) {
+				st, isSt := in.(*ssa.Store)
+				if !isSt {
+					return
+				}
+				if fv, isFv := st.Addr.(*ssa.FreeVar); isFv && core.IsErrorType(core.Deref(fv.Type())) && capturedIsReturned(fv) {
+					ok = true
+				}
+			})
+			r.Ob("end-follows-begin", core.FnName(f)+"/deferred-error-is-the-result", ctx.Pos(clo.Pos()), ok,
+				"the deferred function stores the endEdit failure into a variable that is not the function's result: an error of the root node's EndEdit — for the JSON writer the final Flush of the stream — never reaches the caller")
+		}
+	}
+	r.Floor("end-follows-begin(deferred error)", n, 2)
+}
+
+// c16WhenGoesOnTheNode: the `when` of an augment is copied onto the data node it
+// adds (the same value that is inserted), never onto an implied case: nothing
+// evaluates the when of a case at run time.
+func c16WhenGoesOnTheNode(ctx *core.Ctx, r *core.Report) {
+	f := ctx.Method("meta", "resolver", "expandAugment")
+	if f == nil {
+		r.Fatalf("anchor meta.resolver.expandAugment not found")
+		return
+	}
+	n := 0
+	for _, g := range withClosures(f) {
+		for _, c := range core.CallSites(g) {
+			m := core.IfaceMethod(c)
+			if m == nil || m.Name() != "setWhen" {
+				continue
+			}
+			n++
+			recv := c.Common().Value
+			for {
+				if ex, ok := recv.(*ssa.Extract); ok {
+					recv = ex.Tuple
+				} else if ta, ok := recv.(*ssa.TypeAssert); ok {
+					recv = ta.X
+				} else if mi, ok := recv.(*ssa.MakeInterface); ok {
+					recv = mi.X
+				} else if ci, ok := recv.(*ssa.ChangeInterface); ok {
+					recv = ci.X
+				} else {
+					break
+				}
+			}
+			// the receiver is the clone made from one of the augment's own definitions
+			verdict, _ := copyOrOriginal(recv, map[ssa.Value]bool{})
+			isClone := verdict == "copy"
+			if call, isCall := recv.(*ssa.Call); isCall {
+				if cal := core.StaticCallee(call); cal != nil && core.FnName(cal) == "meta.Builder.Case" {
+					isClone = false
+				}
+			}
+			if _, isParam := recv.(*ssa.Parameter); isParam || g != f {
+				isClone = false // through a helper: cannot tell which value it is applied to
+			}
+			r.Ob("when-on-the-node", fmt.Sprintf("meta.resolver.expandAugment/setWhen#%d", n), ctx.Pos(c.Pos()), isClone,
+				"the augment's when is not put on the cloned data node itself (it goes through a helper, or onto the implied case): a when on a case is never evaluated, so a node augmented into a choice in shorthand form is shown and written although the condition is false")
+		}
+	}
+	r.Floor("when-on-the-node", n, 1)
+}
+
+// c05NumericClassNormalised: Format.IsNumeric classifies the single form of the
+// format (list formats are the single format plus an offset): every comparison in
+// it is made on that normalised value, none on the receiver as given — or a list
+// format (decimal64 leaf-list) is "not numeric" and its range is never checked.
+func c05NumericClassNormalised(ctx *core.Ctx, r *core.Report) {
+	f := ctx.Method("val", "Format", "IsNumeric")
+	if f == nil || len(f.Params) == 0 {
+		r.Fatalf("anchor val.Format.IsNumeric not found")
+		return
+	}
+	recv := f.Params[0]
+	n, bad := 0, 0
+	core.Instrs(f, func(_ *ssa.BasicBlock, in ssa.Instruction) {
+		bo, ok := in.(*ssa.BinOp)
+		if !ok {
+			return
+		}
+		switch bo.Op {
+		case token.EQL, token.NEQ, token.LSS, token.LEQ, token.GTR, token.GEQ:
+		default:
+			return
+		}
+		if _, isC := core.ConstInt(bo.Y); !isC {
+			return
+		}
+		n++
+		if bo.X == ssa.Value(recv) {
+			bad++
+		}
+	})
+	r.Ob("numeric-class-normalised", "val.Format.IsNumeric", ctx.Pos(f.Pos()), bad == 0 && n > 0,
+		fmt.Sprintf("%d of %d comparisons in IsNumeric look at the format as given instead of its single form: the list form of that format (a decimal64 leaf-list) is not numeric for the checker and its range is never applied", bad, n))
+}
+
+// readerErrorsSurface (C05, C19): in the XML reader's Field/Next callbacks the error
+// of every value conversion reaches the callback's own error result (a `v, err :=`
+// inside an inner block declares another err and the outer one stays nil: the bad
+// leaf-list is dropped silently and the rest of the payload applied).
+func readerErrorsSurface(ctx *core.Ctx, r *core.Report) {
+	nv := ctx.Fn("node", "NewValue")
+	if nv == nil {
+		r.Fatalf("anchor node.NewValue not found")
+		return
+	}
+	n := 0
+	for _, name := range []string{"Field", "Next", "field"} {
+		f := ctx.Method("nodeutil", "XmlNode", name)
+		if f == nil {
+			continue
+		}
+		res := f.Signature.Results()
+		if res.Len() == 0 || !core.IsErrorType(res.At(res.Len()-1).Type()) {
+			continue
+		}
+		for _, c := range callsStatic(f, nv, false) {
+			n++
+			ev := errResult(c)
+			ok := ev != nil && flowsToReturn(ev, 0, map[ssa.Value]bool{})
+			r.Ob("reader-errors-surface", fmt.Sprintf("nodeutil.XmlNode.%s/NewValue#%d", name, n), ctx.Pos(c.Pos()), ok,
+				"the error of converting XML text to the leaf's type does not reach the callback's result: an element the type rejects (undeclared enum, out-of-range number) is dropped or replaced by an empty value, the write returns nil and the rest of the payload is applied")
+		}
+	}
+	r.Floor("reader-errors-surface", n, 2)
+}
